@@ -518,18 +518,19 @@ def check_xdecl(ck, it, func, root, N, rule="X-DECL", extra_facts=(), skip=lambd
         n += 1
         cons = f"read `{r['text'][:70]}` in {r['func']} ends inside the declared length"
         fs = list(r["facts"]) + list(extra_facts)
-        st, m = budgeted_prove(fs, g, max_cases=12 if in_loop(r) else None)
-        if st == "budget":
-            ck.assume(rule, func, cons, str(m))
-            continue
+        # a read through a closed slice cannot reach beyond that slice: it is enough that one enclosing closed slice
+        # ends inside the declared length (cheap, and independent of any loop index)
+        st, m = "unknown", None
+        for bound in enclosing_bounds(r):
+            st2, m2 = budgeted_prove(fs, binop("<=", lin_term(bound), N), max_cases=12 if in_loop(r) else None)
+            if st2 == "proved":
+                st, m, hi = st2, m2, lin_term(bound)
+                break
         if st != "proved":
-            # a read through a closed slice cannot reach beyond that slice: it is enough that one enclosing
-            # closed slice ends inside the declared length
-            for bound in enclosing_bounds(r):
-                st2, m2 = budgeted_prove(fs, binop("<=", lin_term(bound), N), max_cases=12 if in_loop(r) else None)
-                if st2 == "proved":
-                    st, m, hi = st2, m2, lin_term(bound)
-                    break
+            st, m = budgeted_prove(fs, g, max_cases=12 if in_loop(r) else None)
+            if st == "budget":
+                ck.assume(rule, func, cons, str(m))
+                continue
         if st == "proved":
             ck.proved(rule, func, cons, f"{show(hi)[:80]} <= {show(N)[:60]}")
         elif st == "refutable":
@@ -755,6 +756,12 @@ def simplify(t, facts, _cache=None):
             cache[k] = prove(facts, goal)[0] == "proved"
         return cache[k]
 
+    def proved_under(c, goal):
+        k = ("under", show(c), show(goal))
+        if k not in cache:
+            cache[k] = prove(list(facts) + [truthy(c)], goal)[0] == "proved"
+        return cache[k]
+
     def unclamped(sl):
         b, lo, hi = sl.a
         if is_const(hi, None):
@@ -768,6 +775,8 @@ def simplify(t, facts, _cache=None):
             p = buffer_pos(x.a[0], linearize(x.a[1]))
             if p is not None and p[1].is_const() and p[1].c >= 0:
                 return T("idx", p[0], C(p[1].c), ty="int")
+            if p is not None and not p[1].is_const() and p[0].k == "sym":
+                return T("idx", p[0], lin_term(p[1]), ty="int")
             return x
         if x.k == "slice" and not is_const(x.a[2], None) and linearize(x.a[1]).key() == linearize(x.a[2]).key():
             return C(b"")      # b[k:k] is empty whatever b is
@@ -801,6 +810,23 @@ def simplify(t, facts, _cache=None):
             if unclamped(inner) and is_const(d, None) and proved(binop(">=", c, C(0))):
                 # b[a:e][c:] == b[a+c:e] for an exact inner slice (both empty when a+c > e)
                 return T("slice", inner.a[0], lin_term(linearize(a) + linearize(c)), inner.a[2], ty="bytes")
+            return x
+        if x.k == "gamma" and x.ty == "int" and not (x.a[0].k == "un" and x.a[0].a[0] == "bool"):
+            # integer alternatives that coincide wherever the gate holds: γ(c ? A : B) == B if c entails A == B
+            # (an LV's packet length γ(L == 0 ? 1 : L + 1) is L + 1).  Inner gates equal to c are resolved first.
+            from .terms import mapterm as _mt
+            c = x.a[0]
+            pick = lambda side: _mt(lambda y: (y.a[1] if side else y.a[2]) if (y.k == "gamma" and y.a[0] == c) else y, x.a[1] if side else x.a[2])
+            A, B = pick(True), pick(False)
+            if all(s_.k != "undef" for s_ in subterms(A)) and all(s_.k != "undef" for s_ in subterms(B)):
+                la, lb = linearize(A), linearize(B)
+                if la.key() == lb.key():
+                    return B
+                if proved_under(c, binop("==", A, B)):
+                    return B
+                if A is not x.a[1] or B is not x.a[2]:
+                    from .terms import gamma as _g
+                    return _g(c, A, B)
             return x
         if x.k == "gamma" and x.a[0].k == "un" and x.a[0].a[0] == "bool":
             v = x.a[0].a[1]
